@@ -310,7 +310,7 @@ func TestVF_Hostile(t *testing.T) {
 	synctest.Test(t, func(t *testing.T) {
 		ctx, cancel := context.WithCancel(context.Background())
 		defer cancel()
-		hosts := vfHosts(t, 5)
+		hosts := vfHosts(t, 6)
 		count := 0
 		psA := vfHostileNodeR(t, ctx, hosts[0], 1<<20, &count, router)
 		var subs []*Subscription
@@ -343,6 +343,42 @@ func TestVF_Hostile(t *testing.T) {
 				}
 			})
 		}
+		if router == 0 {
+			// "any number of peers": a dozen peers subscribe and GRAFT until the mesh is at Dhi, each then sends one message with a
+			// bogus signature (rejected: its score turns negative), and heartbeats run with the whole mesh below zero
+			js, _ := json.Marshal(map[string]any{"scenario": "twelve peers SUBSCRIBE and GRAFT t0 (mesh at Dhi), each sends one message with an invalid signature, then two heartbeats"})
+			os.WriteFile(filepath.Join(outDir, "c12_last_input.json"), js, 0o644)
+			sybils := vfPeerIDs(32)[20:32]
+			tn := "t0"
+			sv := true
+			vfEval(psA, func() {
+				for _, p := range sybils {
+					psA.peers[p] = newRpcQueue(1 << 12)
+					psA.rt.OnNewOutboundStream(p, GossipSubID_v11, nil)
+					psA.handleIncomingRPC(&RPC{RPC: pb.RPC{Subscriptions: []*pb.RPC_SubOpts{{Subscribe: &sv, Topicid: &tn}},
+						Control: &pb.ControlMessage{Graft: []*pb.ControlGraft{{TopicID: &tn}}}}, from: p})
+				}
+			})
+			for k, p := range sybils {
+				p := p
+				m := &pb.Message{Data: []byte(fmt.Sprintf("sybil-%d", k)), Topic: &tn, From: []byte(p), Seqno: []byte{0, 0, 0, 0, 0, 0, 0, byte(k + 1)}, Signature: []byte("not a signature")}
+				vfEval(psA, func() { psA.handleIncomingRPC(&RPC{RPC: pb.RPC{Publish: []*pb.Message{m}}, from: p}) })
+			}
+			synctest.Wait()
+			time.Sleep(2500 * time.Millisecond) // two heartbeats
+			synctest.Wait()
+			vfEval(psA, func() {
+				for _, p := range sybils {
+					if q, ok := psA.peers[p]; ok {
+						q.Close()
+						delete(psA.peers, p)
+					}
+					psA.clearPeerFromTopicsState(p)
+					psA.rt.OnClosedOutboundStream(p)
+				}
+			})
+			cs.kind("sybil-mesh-turns-negative")
+		}
 		// an honest node
 		psH, err := NewGossipSub(ctx, hosts[3], WithMessageSignaturePolicy(LaxNoSign))
 		if err != nil {
@@ -370,6 +406,12 @@ func TestVF_Hostile(t *testing.T) {
 				}
 			}
 			mocks = append(mocks, m)
+		}
+		// a stranger: a connected host that speaks the protocol towards the node but accepts none of the node's streams, so the
+		// node has no outbound queue, no router entry and no score record for it ("RPCs from unknown peers")
+		stranger := &vfMock{t: t, h: hosts[5], a: hosts[0], proto: protos[0]}
+		if err := stranger.h.Connect(ctx, peer.AddrInfo{ID: hosts[0].ID(), Addrs: hosts[0].Addrs()}); err != nil {
+			t.Fatal(err)
 		}
 		time.Sleep(2 * time.Second)
 		open := func(m *vfMock) {
@@ -447,6 +489,9 @@ func TestVF_Hostile(t *testing.T) {
 				}
 			}
 			m := mocks[rng.Intn(2)]
+			if rng.Intn(5) == 0 {
+				m = stranger
+			}
 			if m.out == nil {
 				open(m)
 			}
@@ -457,7 +502,11 @@ func TestVF_Hostile(t *testing.T) {
 				m.out = nil
 				continue
 			}
-			cs.kind(string(m.proto))
+			if m == stranger {
+				cs.kind("stranger:" + string(m.proto))
+			} else {
+				cs.kind(string(m.proto))
+			}
 			if i%25 == 24 {
 				synctest.Wait()
 				if !probe(i, "a hostile RPC", rpc) {
@@ -513,6 +562,6 @@ func TestVF_Hostile(t *testing.T) {
 		js, _ := json.MarshalIndent(viol, "", " ")
 		os.WriteFile(filepath.Join(outDir, "violation_hostile.json"), js, 0o644)
 	}
-	cs.flush("structurally valid RPCs with adversarial field values (empty / huge / unknown topics, wrong-length sequence numbers, bogus author ids, absent optional fields, signatures under a no-sign policy, IHAVE lists around the per-peer budget, PRUNE with huge backoff and bogus / unsigned peer records, empty control entries, floods of validly signed peer-exchange records for unreachable addresses from a peer in good standing, extension and partial-message fields from the C11 generator) from peers of different protocol versions over REAL streams to a gossipsub node with scoring, peer exchange, the sequence-number validator and extensions, and (a third of the volume each) to a floodsub and a randomsub node with the sequence-number validator; every 25 RPCs the event loop is probed and an honest node's publication must be delivered; the last input is kept on disk so that a crash of the process can be attributed; " +
+	cs.flush("structurally valid RPCs with adversarial field values (empty / huge / unknown topics, wrong-length sequence numbers, bogus author ids, absent optional fields, signatures under a no-sign policy, IHAVE lists around the per-peer budget, PRUNE with huge backoff and bogus / unsigned peer records, empty control entries, floods of validly signed peer-exchange records for unreachable addresses from a peer in good standing, a dozen peers that fill the mesh to Dhi and then all turn negative before the next heartbeat, extension and partial-message fields from the C11 generator) from peers of different protocol versions (and from a connected stranger that accepts none of the node's streams, so that the node knows nothing about it) over REAL streams to a gossipsub node with scoring, peer exchange, the sequence-number validator and extensions, and (a third of the volume each) to a floodsub and a randomsub node with the sequence-number validator; every 25 RPCs the event loop is probed and an honest node's publication must be delivered; the last input is kept on disk so that a crash of the process can be attributed; " +
 		"non-trivial = always; distinct = index")
 }
